@@ -8,6 +8,7 @@
 //! feasibility / KKT conditions recomputed in f64 with the harness' own kernel function.
 
 mod data;
+mod layout;
 mod oracle;
 
 use data::{Data, Kind};
@@ -15,7 +16,7 @@ use linfa::dataset::{Dataset, DatasetBase, Pr};
 use linfa::traits::{Fit, Predict};
 use linfa_svm::{Svm, SvmError, SvmParams};
 use lvmc_core::{guarded, json, par_sweep, Ctx, Level, Value, Violation};
-use ndarray::{Array1, Array2};
+use ndarray::{Array1, Array2, ArrayBase, ArrayView1, ArrayView2, Data as NdData, Ix2};
 use oracle::{Counters, Obs};
 use serde::{Deserialize, Serialize};
 use std::sync::atomic::{AtomicU64, Ordering};
@@ -59,6 +60,9 @@ pub struct Case {
     pub problem: Problem,
     pub eps: f64,
     pub float: String,
+    /// "" = KKT sweep (shrinking off/on through all oracles), "layout" = memory-layout family
+    #[serde(default)]
+    pub family: String,
 }
 
 /// Float types the subject is instantiated with. Regression `Fit` / `Predict` exist only for the
@@ -67,6 +71,8 @@ pub trait SvmFloat: linfa::Float {
     const EPS_MACH: f64;
     fn fit_reg(p: SvmParams<Self, Self>, ds: &DatasetBase<Array2<Self>, Array1<Self>>) -> Result<Svm<Self, Self>, SvmError>;
     fn predict_reg(m: &Svm<Self, Self>, x: &Array2<Self>) -> Array1<Self>;
+    fn fit_reg_view(p: SvmParams<Self, Self>, ds: &DatasetBase<ArrayView2<Self>, ArrayView1<Self>>) -> Result<Svm<Self, Self>, SvmError>;
+    fn predict_reg_any<D: NdData<Elem = Self>>(m: &Svm<Self, Self>, x: &ArrayBase<D, Ix2>) -> Array1<Self>;
 }
 macro_rules! impl_svm_float {
     ($t:ty) => {
@@ -78,17 +84,23 @@ macro_rules! impl_svm_float {
             fn predict_reg(m: &Svm<Self, Self>, x: &Array2<Self>) -> Array1<Self> {
                 m.predict(x)
             }
+            fn fit_reg_view(p: SvmParams<Self, Self>, ds: &DatasetBase<ArrayView2<Self>, ArrayView1<Self>>) -> Result<Svm<Self, Self>, SvmError> {
+                p.fit(ds)
+            }
+            fn predict_reg_any<D: NdData<Elem = Self>>(m: &Svm<Self, Self>, x: &ArrayBase<D, Ix2>) -> Array1<Self> {
+                m.predict(x)
+            }
         }
     };
 }
 impl_svm_float!(f32);
 impl_svm_float!(f64);
 
-fn f64of<F: SvmFloat>(x: F) -> f64 {
+pub(crate) fn f64of<F: SvmFloat>(x: F) -> f64 {
     x.to_f64().unwrap()
 }
 
-fn with_kernel<F: SvmFloat, T>(p: SvmParams<F, T>, k: &Kern) -> SvmParams<F, T> {
+pub(crate) fn with_kernel<F: SvmFloat, T>(p: SvmParams<F, T>, k: &Kern) -> SvmParams<F, T> {
     match k {
         Kern::Linear => p.linear_kernel(),
         Kern::Gaussian(e) => p.gaussian_kernel(F::cast(*e)),
@@ -262,10 +274,12 @@ fn run_typed<F: SvmFloat>(case: &Case, v: &mut Vec<Violation>) -> Counters {
 }
 
 fn run_case_inner(case: &Case, v: &mut Vec<Violation>) -> Counters {
-    match case.float.as_str() {
-        "f32" => run_typed::<f32>(case, v),
-        "f64" => run_typed::<f64>(case, v),
-        _ => panic!("bad float"),
+    match (case.family.as_str(), case.float.as_str()) {
+        ("layout", "f32") => layout::run_typed::<f32>(case, v),
+        ("layout", "f64") => layout::run_typed::<f64>(case, v),
+        ("", "f32") => run_typed::<f32>(case, v),
+        ("", "f64") => run_typed::<f64>(case, v),
+        _ => panic!("bad case family / float"),
     }
 }
 
@@ -335,7 +349,12 @@ fn main() {
          nu-SVC / one-class: nu in {{.1,.5,1}}; eps-SVR: C in {{.01,1,100}} x eps_loss in {{.1,.5}}; nu-SVR: nu in {{.1,.5,1}} x C in {{.01,1,100}}; \
          solver eps in {{1e-3,1e-7}}; f32 and f64; members whose eps is below 8 ulp (of the float type) of max(max U * max|K|, max|p|) cannot resolve the stopping rule and are run only in the thorough tier for a small family (n=8, f32, eps 1e-7, linear / Gaussian(.5), one parameter point per problem type) that exercises the iteration cap; nu-SVR with C=100 only in the thorough tier for n<=12; for n>=80 only linear / Gaussian(.5) / polynomial(0,2) (the other two kernels need 10^7 iterations per fit there). Every case is fitted with shrinking off and on (classification additionally as Svm<_,Pr>), \
          every fit is one evaluation; non-trivial = the model has at least one non-zero coefficient and the solver made at least one iteration; \
-         the whole Cartesian product is run (count asserted).",
+         the whole Cartesian product is run (count asserted). Size family: separable / overlapping / cluster / noisy-line with n = 1025 (quick: overlapping C-SVC (1,10) and noisy-line nu-SVR, linear kernel only) \
+         (beyond the 1000-iteration shrinking period), linear and Gaussian(.5), 2-3 parameter points per problem type, eps 1e-3, f64, through the same oracles. \
+         Layout family: 5 datasets x n in {{12}} quick / {{12,40}} thorough x linear / Gaussian(.5) / polynomial(1,3) x one or two parameter points per problem type x f32 / f64 x shrinking off/on \
+         (x calibrated for classification): the records are given to fit as standard-layout view, column-major owned array, transposed view of a feature-major array, \
+         reversed-row view of a reversed copy, every-second-row view of an array whose other rows are NaN, and the standard-layout model is applied (predict, weighted_sum) to the \
+         training and new records in the same five layouts plus single samples held in strided / reversed 1-D buffers.",
         sizes
     ));
     ctx.assume("oracle kernel = harness' own f64 implementation of <x,x'>, exp(-|x-x'|^2/eps), (<x,x'>+c)^d on the coordinates as rounded to the subject's float type; f_i = sum_j alpha_j K_ij - rho from the PUBLISHED alpha / rho");
@@ -346,6 +365,7 @@ fn main() {
     ctx.assume("nu-SVC whose margin r (read from the derived Debug output, the only place it is published) is zero at solver precision, |r| <= 2*eps + rounding, is degenerate (the nu-reduced convex hulls of the classes intersect, w = 0, the 1/r scaling is undefined; libsvm behaves the same): counted indeterminate, not judged");
     ctx.assume("nu-SVR oracle: |alpha_i| <= C, sum alpha_i = 0, a common tube half-width e >= 0 must exist (free: sign(alpha_i)(y_i-f_i) = e, bounded: >= e, zero: |y_i-f_i| <= e, all within tau), sum|alpha_i| <= C*nu*n, and = C*nu*n when e > 0 (complementary slackness of the nu constraint)");
     ctx.assume("calibrated models: alpha / rho / weighted_sum bit-identical to the uncalibrated model of the same parameters; Pr in [0,1] and weakly monotone in the model's own decision value with a slack of 4 f32 ulp (Pr is computed in f32); a decision value of exactly 0 has no sign (either label accepted)");
+    ctx.assume("layout family: every kernel entry is computed from two rows in an element order that does not depend on the memory layout, so everything published (alpha, rho, nsupport, Display, weighted_sum, labels, values, Pr) must be BIT-identical to the standard-layout run; targets are always passed contiguous (fit documents nothing about strided targets); no panic for non-contiguous records is documented for linfa-svm");
     ctx.assume("termination: SolverState::solve is bounded by 10^7 iterations; a fit that reports 'Reached maximal iterations' and violates KKT is reported as not converged; a case that does not return within 900 s wall is reported as non-terminating");
 
     // ---------------- enumerate ----------------
@@ -448,12 +468,60 @@ fn main() {
                             problem: p.clone(),
                             eps: e,
                             float: f.to_string(),
+                            family: String::new(),
                         });
                     }
                 }
             }
         }
     }
+    let kkt_cases = cases.len();
+    // ---------------- size family: n = 1025, beyond the 1000-iteration shrinking period (2 members quick, 20 thorough) ----------------
+    let mut size_cases = 0usize;
+    {
+        let members = if thorough { vec![data::separable(1025), data::overlapping(1025), data::cluster_outliers(1025), data::line_noisy(1025)] } else { vec![data::overlapping(1025), data::line_noisy(1025)] };
+        for d in members {
+            let problems: Vec<Problem> = match d.kind {
+                Kind::Classification => vec![Problem::CSvc { c_pos: 1.0, c_neg: 1.0 }, Problem::CSvc { c_pos: 1.0, c_neg: 10.0 }, Problem::NuSvc { nu: 0.5 }],
+                Kind::Unlabelled => vec![Problem::OneClass { nu: 0.1 }, Problem::OneClass { nu: 0.5 }],
+                Kind::Regression => vec![Problem::EpsSvr { c: 1.0, eps_loss: 0.1 }, Problem::NuSvr { nu: 0.5, c: 1.0 }],
+            };
+            for k in [Kern::Linear, Kern::Gaussian(0.5)] {
+                for (pi, p) in problems.iter().enumerate() {
+                    // quick: one linear member per dataset (about a second each)
+                    if !thorough && !(k == Kern::Linear && pi == 1) {
+                        continue;
+                    }
+                    cases.push(Case { dataset: d.id.clone(), x: d.x.clone(), labels: d.labels.clone(), targets: d.targets.clone(), probes: d.probes.clone(), kernel: k.clone(), problem: p.clone(), eps: 1e-3, float: "f64".into(), family: String::new() });
+                    size_cases += 1;
+                }
+            }
+        }
+    }
+    // ---------------- memory-layout family ----------------
+    let layout_sizes: Vec<usize> = ctx.pick(vec![12], vec![12, 40]);
+    let mut layout_cases = 0usize;
+    for d in data::catalogue(&layout_sizes) {
+        if !(d.id.starts_with("overlapping") || d.id.starts_with("imbalanced") || d.id.starts_with("generic_cloud") || d.id.starts_with("line_noisy") || d.id.starts_with("dup_conflict")) {
+            continue;
+        }
+        let problems: Vec<Problem> = match d.kind {
+            Kind::Classification => vec![Problem::CSvc { c_pos: 1.0, c_neg: 10.0 }, Problem::NuSvc { nu: 0.5 }],
+            Kind::Unlabelled => vec![Problem::OneClass { nu: 0.5 }],
+            Kind::Regression => vec![Problem::EpsSvr { c: 1.0, eps_loss: 0.1 }, Problem::NuSvr { nu: 0.5, c: 1.0 }],
+        };
+        for k in [Kern::Linear, Kern::Gaussian(0.5), Kern::Poly(1.0, 3.0)] {
+            for p in &problems {
+                for f in floats {
+                    cases.push(Case { dataset: d.id.clone(), x: d.x.clone(), labels: d.labels.clone(), targets: d.targets.clone(), probes: d.probes.clone(), kernel: k.clone(), problem: p.clone(), eps: 1e-3, float: f.to_string(), family: "layout".into() });
+                    layout_cases += 1;
+                }
+            }
+        }
+    }
+    ctx.extra("kkt_sweep_cases", json!(kkt_cases));
+    ctx.extra("size_family_cases_n1025", json!(size_cases));
+    ctx.extra("layout_family_cases", json!(layout_cases));
     // large cases first so that the parallel sweep does not end on a long tail
     cases.sort_by_key(|c| std::cmp::Reverse(c.x.len()));
     ctx.extra("datasets", json!(cat.len()));
